@@ -712,4 +712,32 @@ theorem admissible_iff_dsep {E : List Edge} {x y : Nat} {Z : List Nat} :
   unfold Admissible DSepMoral MoralMinus MoralAdj
   simp only [hed, InAn]
 
+
+/-! ### histories on one object -/
+
+theorem runObj_dag (x y : Nat) (o : Obj) (cs : List Call) :
+    (runObj x y o cs).1.dag = (run x y o.dag (edits cs)).1 := by
+  induction cs generalizing o with
+  | nil => rfl
+  | cons c cs ih =>
+    cases c with
+    | edit op => simp only [runObj, edits, run]; rw [ih]; rfl
+    | calculate => simp only [runObj, edits]; rw [ih]; rfl
+
+theorem runObj_append (x y : Nat) (o : Obj) (cs ds : List Call) :
+    (runObj x y o (cs ++ ds)).1 = (runObj x y (runObj x y o cs).1 ds).1 := by
+  induction cs generalizing o with
+  | nil => rfl
+  | cons c cs ih => simp only [List.cons_append, runObj]; rw [ih]
+
+
+theorem runObj_calc_last (x y : Nat) (o : Obj) (cs : List Call) :
+    (runObj x y o (cs ++ [.calculate])).1.dag = (runObj x y o cs).1.dag ∧
+    (runObj x y o (cs ++ [.calculate])).1.adj =
+      some (listAll (runObj x y o (cs ++ [.calculate])).1.dag x y) ∧
+    (runObj x y o (cs ++ [.calculate])).1.minAdj =
+      some (minimal (listAll (runObj x y o (cs ++ [.calculate])).1.dag x y)) := by
+  rw [runObj_append]
+  exact ⟨rfl, rfl, rfl⟩
+
 end ZV.Dag
